@@ -325,8 +325,12 @@ func checkErr(rec *stats.Recorder, c errCase) (msg string, known string) {
 	}
 	// the connection / server must still be usable: a plain successful call right after
 	probe := dyn.Call{Resource: "vr.acts", Method: "NoargsAction"}
-	if _, perr, _, _, _ := w.do(cfg, &probe, &dyn.Outcome{}, nil); perr != nil {
+	_, perr, prsl, _, _ := w.do(cfg, &probe, &dyn.Outcome{}, nil)
+	if perr != nil {
 		return fail("the server is not usable after the call: %v", perr)
+	}
+	if prsl != nil && len(prsl.wire) > 0 && prsl.wire[len(prsl.wire)-1].Status != 200 {
+		return fail("a successful action right after the call was answered %d, want 200 (the protocol's default; nothing of the earlier exchange may leak into it)", prsl.wire[len(prsl.wire)-1].Status)
 	}
 	// ... and a call that returns an entity must return exactly that entity (nothing of the earlier exchange may leak
 	// into a later response)
